@@ -40,6 +40,14 @@ DB = (
     + [((1, 3, 6, 1, 2, 1, 4, 1, 0), ["counter32", 7])]
 )
 WRITABLE = [1, 3, 6, 1, 4, 1, 99]
+READONLY = [1, 3, 6, 1, 4, 1, 98, 1, 0]
+
+
+def ro_hook(agent, msg, out):
+    """a SET of the read-only object is answered with notWritable(17), error-index 1"""
+    if isinstance(out, dict) and agent.log and agent.log[-1].get("type") == "set" and any(list(o) == READONLY for o, _ in agent.log[-1].get("varbinds", [])):
+        out["a"], out["b"] = 17, 1
+    return out
 
 
 class SchedSender:
@@ -47,6 +55,7 @@ class SchedSender:
         self.agent = agent
         self.pending = {}  # op index -> (future, datagram)
         self.events = []  # (op index, "probe" | "req", parsed)
+        self.kwargs = []  # (op index, timeout, retries) of every call, probes included
 
     async def __call__(self, endpoint, data, timeout=None, retries=None, **kw):
         i = OP_INDEX.get()
@@ -54,6 +63,7 @@ class SchedSender:
         m = B.parse_message(bytes(data))
         probe = m.get("version") == 3 and m.get("engine_id") == b""
         self.events.append((i, "probe" if probe else "req", bytes(data)))
+        self.kwargs.append((i, timeout, retries))
         self.pending[i] = (fut, bytes(data))
         return await fut
 
@@ -113,7 +123,7 @@ def run_schedule(opset, proto, prefix, policy="lowest", cancel=None):
 
 def _run_schedule(opset, proto, prefix, policy, cancel):
     version, level = proto
-    agent = RA.Agent(db=list(DB))
+    agent = RA.Agent(db=list(DB), hook=ro_hook)
     sender = SchedSender(agent)
     nclients = max(c for c, _ in opset) + 1
     from puresnmp import Client
@@ -182,7 +192,9 @@ def _run_schedule(opset, proto, prefix, policy, cancel):
             seen_req[i] = True
             log.append([i, 100 * i + k])
     bad_agent = [e.get("kind") for e in agent.log if e.get("version") == 3 and e.get("kind") not in ("request", "discovery")]
-    return {"trace": trace, "results": results, "requests": per_op, "log": log, "bad_agent": bad_agent, "late_probe": probes_after_req, "agent": agent}
+    kw = [sorted({(t, r) for j, t, r in sender.kwargs if j == i}) for i in range(len(opset))]
+    configs = [(cl.config.timeout, cl.config.retries) for cl in clients]
+    return {"trace": trace, "results": results, "requests": per_op, "log": log, "bad_agent": bad_agent, "late_probe": probes_after_req, "agent": agent, "kwargs": kw, "configs": configs}
 
 
 def request_view(agent, datagram, version):
@@ -196,7 +208,7 @@ def run_schedule_user(op, proto, c):
     """solo run of `op` on the client with user index c"""
     opset = [(c, op)]
     version, level = proto
-    agent = RA.Agent(db=list(DB))
+    agent = RA.Agent(db=list(DB), hook=ro_hook)
     sender = SchedSender(agent)
     from puresnmp import Client
 
@@ -235,7 +247,7 @@ def run_schedule_user(op, proto, c):
     finally:
         loop.close()
     per_op = [d for _i, k, d in sender.events if k == "req"]
-    return {"results": results, "requests": [per_op], "agent": agent}
+    return {"results": results, "requests": [per_op], "agent": agent, "kwargs": [sorted({(t, r) for _j, t, r in sender.kwargs})], "configs": [(clients[c].config.timeout, clients[c].config.retries)]}
 
 
 def views(run, idx, version):
@@ -250,15 +262,21 @@ def check_run(res, case, run, solos, proto):
         if run["results"][i] != s["results"][0]:
             res.violate("sched-enum", case, s["results"][0], run["results"][i], f"operation {i} returned something else than when run alone", {"kind": "conc", "what": "result-differs"})
             return False
-        if views(run, i, version) != views(s, 0, version):
-            pass
+        if run["kwargs"][i] != s["kwargs"][0]:
+            res.violate("sched-enum", case, s["kwargs"][0], run["kwargs"][i], f"operation {i} reached the transport with other (timeout, retries) than when run alone", {"kind": "conc", "what": "transport-settings-differ"})
+            return False
         if views(run, i, version) != views(s, 0, version):
             res.violate("sched-enum", case, "solo requests", "other requests", f"operation {i} emitted other requests than when run alone", {"kind": "conc", "what": "requests-differ"})
             return False
+    if any(cfg != solos[0]["configs"][0] for cfg in run["configs"]):
+        res.violate("sched-enum", case, solos[0]["configs"][0], run["configs"], "a client's timeout / retries differ from the configured ones after all operations have ended", {"kind": "conc", "what": "config-changed"})
+        return False
     if run["bad_agent"]:
         res.violate("sched-enum", case, "agent accepts every request", run["bad_agent"], "the agent rejected a request (wrong digest / unknown user / decryption)", {"kind": "conc", "what": "agent-rejects"})
         return False
-    if run["late_probe"]:
+    # (after an error-class reply the client re-discovers, so probes may then appear anywhere; their
+    # exact places are compared with the model's trace)
+    if run["late_probe"] and not any(r and r[0] == "error" for r in run["results"]):
         res.violate("sched-enum", case, "probes only before an operation's first request", run["log"], "a discovery probe was emitted after the operation's first request", {"kind": "conc", "what": "late-probe"})
         return False
     return True
@@ -270,7 +288,10 @@ def model_req(opset, solos, proto, chosen, nclients):
         idx = [i for i, (cc, _) in enumerate(opset) if cc == c]
         procs = [{"v3": proto[0] == "v3", "reqs": [100 * i + k for k in range(len(solos[i]["requests"][0]))], "res": i} for i in idx]
         sched = [idx.index(i) for i in chosen if i in idx]
-        reqs.append(({"op": "conc.run", "procs": procs, "schedule": sched}, idx))
+        # replies on which V3MPM.decode forgets the discovery data (an SnmpError raised while the
+        # message is processed): here the error-status answers to the SET of the read-only object
+        forget = [100 * i + k for i in idx if proto[0] == "v3" and opset[i][1][0] == "set" and list(opset[i][1][1]) == READONLY for k in range(len(solos[i]["requests"][0]))]
+        reqs.append(({"op": "conc.run", "procs": procs, "schedule": sched, "forget": forget}, idx))
     return reqs
 
 
@@ -306,6 +327,7 @@ OPS = [
     ("bulkwalk", [[1, 3, 6, 1, 2, 1, 1]], 10),
     ("set", WRITABLE + [1, 0], ["int", 5]),
     ("set", WRITABLE + [2, 0], ["str", "6869"]),
+    ("set", READONLY, ["int", 1]),  # answered with notWritable: an error-status reply among the others
 ]
 
 
@@ -315,6 +337,10 @@ def run(ctx):
     rng = ctx.rng
     # small sets, fully enumerated (bounded)
     for proto in (("v2c", "noauth"), ("v3", "authpriv")):
+        # corpus: an error-status reply to one operation while another one is still discovering /
+        # waiting, and two overlapping SETs next to a read
+        sets.append(([(0, OPS[0]), (0, OPS[-1])], proto, ctx.budget(60, 600), None))
+        sets.append(([(0, OPS[-3]), (0, OPS[-2]), (0, OPS[0])], proto, ctx.budget(60, 600), None))
         for _ in range(ctx.budget(5, 16)):
             n = rng.choice([2, 2, 3])
             ops = [rng.choice(OPS) for _ in range(n)]
